@@ -147,11 +147,17 @@ type c08Handler struct {
 }
 
 func c08(run *ev.Run) int {
-	run.SetRule("negotiation cases = handler registration list x client registration list (all ordered subsets of {zz-rev,zz-xor,zz-len}, with gzip re-registered nowhere / last / in the middle) x send-compression in client set + none x client and handler compress-min in {0,1,100,1024} x message sizes {min-1,min,min+1} x 3 protocols x 2 codecs x 4 kinds (seeded sample; thorough also walks every handler-list x client-list pair); isolation histories = corrupt (bit flip, truncation, bad CRC/ISIZE/magic, trailing garbage) and valid compressed calls on shared pools, sequential with GOMAXPROCS=1 and concurrent with GC off, on the handler side and on the client side; oracle = negotiation model + lossless + threshold + instrumented (de)compressor discipline + every valid call succeeds with its own payload; distinct by (handler list, client list, send, protocol, kind, size class)")
+	run.SetRule("negotiation cases = handler registration list x client registration list (all ordered subsets of {zz-rev,zz-xor,zz-len}, with gzip re-registered nowhere / last / in the middle) x send-compression in client set + none x client and handler compress-min in {0,1,100,1024} x message sizes {min-1,min,min+1} x 3 protocols x 2 codecs x 4 kinds (seeded sample; thorough also walks every handler-list x client-list pair); isolation histories = corrupt (bit flip, truncation, bad CRC/ISIZE/magic, trailing garbage) and valid compressed calls on shared pools, sequential with GOMAXPROCS=1 and concurrent with GC off, on the handler side and on the client side; paired history = corrupt calls whose compression header is rejected by Reset itself, then valid calls whose instrumented decompressors wait for each other inside Read (so that they own their pooled objects at the same moment); oracle = negotiation model + lossless + threshold + instrumented (de)compressor discipline + double-release table for pooled compressors/decompressors (hook) + every valid call succeeds with its own payload; distinct by (handler list, client list, send, protocol, kind, size class)")
 	stats := map[string]*svc.AlgoStats{}
 	for _, n := range svc.AlgoNames {
 		stats[n] = &svc.AlgoStats{}
 	}
+	// hook H1b: a compressor or decompressor released to its pool twice would
+	// later be handed to two calls at once
+	connect.VerifSetPoolReport(func(kind string) {
+		run.Violation("c08/pool/"+kind, "pool discipline violated: "+kind+" (the same object would later serve two calls at once)", nil)
+	})
+	defer connect.VerifSetPoolReport(nil)
 	lists := c08RegLists()
 	run.Set("registration_lists", len(lists))
 	mins := []int{0, 1, 100, 1024}
@@ -210,7 +216,10 @@ func c08(run *ev.Run) int {
 	if !run.Replaying() || strings.Contains(os.Getenv("VERIF_REPLAY_KEY"), "/iso/") {
 		c08Isolation(run)
 	}
-	return run.Finish("negotiations", "compressed.payloads.verified", "below_min.checked", "unsupported.rejections", "isolation.valid_calls", "isolation.corrupt_calls")
+	if !run.Replaying() || strings.Contains(os.Getenv("VERIF_REPLAY_KEY"), "/paired/") {
+		c08Paired(run)
+	}
+	return run.Finish("negotiations", "compressed.payloads.verified", "below_min.checked", "unsupported.rejections", "isolation.valid_calls", "isolation.corrupt_calls", "paired.rendezvous")
 }
 
 // sizedMsg builds a message whose encoding has min-1 / min / min+1 bytes
@@ -681,4 +690,131 @@ func c08Isolation(run *ev.Run) {
 		debug.SetGCPercent(oldGC)
 	}
 	serverPanicCheck(run, srv, "c08/iso")
+}
+
+// c08Paired: the corruption sits where Decompressor.Reset itself rejects it (the
+// algorithm's header), and the valid calls that follow really overlap: their
+// instrumented decompressors wait for each other in Read. If the failed call
+// left the pool with two references to one object, both valid calls get it and
+// the object's ownership flag reports it - deterministically, not by waiting
+// for corrupted bytes to show up.
+func c08Paired(run *ev.Run) {
+	const algo = "zz-xor"
+	stats := &svc.AlgoStats{Pair: 1}
+	nd, nc := svc.Algo(algo, stats)
+	reg := svc.NewRegistry()
+	reg.Default = drainProgram()
+	hs := svc.Handlers(reg, connect.WithCompression(algo, nd, nc))
+	mux := svc.Mux(hs)
+	front := http.HandlerFunc(func(w http.ResponseWriter, req *http.Request) {
+		if req.Header.Get("X-Verif-Corrupt") != "" {
+			// a response whose compressed payload has a bad header (client side)
+			_, _ = io.Copy(io.Discard, req.Body)
+			ct := req.Header.Get("Content-Type")
+			w.Header().Set("Content-Type", ct)
+			bad := []byte{'?', 1, 2, 3, 4, 5, 6, 7}
+			switch {
+			case strings.HasPrefix(ct, "application/grpc-web"):
+				w.Header().Set("Grpc-Encoding", algo)
+				body := refcodec.AppendFrame(nil, 1, bad)
+				_, _ = w.Write(refcodec.AppendFrame(body, 0x80, []byte("grpc-status: 0\r\n")))
+			case strings.HasPrefix(ct, "application/grpc"):
+				w.Header().Set("Grpc-Encoding", algo)
+				w.Header().Set("Trailer", "Grpc-Status")
+				_, _ = w.Write(refcodec.AppendFrame(nil, 1, bad))
+				w.Header().Set("Grpc-Status", "0")
+			default:
+				w.Header().Set("Content-Encoding", algo)
+				_, _ = w.Write(bad)
+			}
+			return
+		}
+		mux.ServeHTTP(w, req)
+	})
+	srv := svc.NewServerWith(reg, hs, front)
+	defer srv.Close()
+	old := runtime.GOMAXPROCS(1) // one P: every Get sees everything that was Put
+	defer runtime.GOMAXPROCS(old)
+	var idc uint64
+	for _, p := range svc.Protocols {
+		for _, side := range []string{"handler", "client"} {
+			key := fmt.Sprintf("c08/paired/%s/%s", side, p)
+			if !run.Want(key) {
+				continue
+			}
+			cs := srv.Clients(true, append(svc.ProtoOpts(p, "proto"), connect.WithAcceptCompression(algo, nd, nc), connect.WithSendCompression(algo))...)
+			hc, base, _ := srv.HTTPClient(true)
+			for round := 0; round < run.Pick(6, 40); round++ {
+				before := atomic.LoadInt64(&stats.Violations)
+				// 1. the corrupt call
+				if side == "handler" {
+					bad := []byte{'?', 9, 9, 9, 9, 9, 9, 9, 9}
+					var status int
+					var hdr, trl http.Header
+					var body []byte
+					var err error
+					switch p {
+					case "connect":
+						status, hdr, body, trl, err = rawPost(hc, base+svc.Unary.Path(), "application/proto", http.Header{"Content-Encoding": {algo}}, bad)
+					case "grpc":
+						status, hdr, body, trl, err = rawPost(hc, base+svc.Unary.Path(), "application/grpc+proto", http.Header{"Grpc-Encoding": {algo}, "Te": {"trailers"}}, refcodec.AppendFrame(nil, 1, bad))
+					default:
+						status, hdr, body, trl, err = rawPost(hc, base+svc.Unary.Path(), "application/grpc-web+proto", http.Header{"Grpc-Encoding": {algo}}, refcodec.AppendFrame(nil, 1, bad))
+					}
+					if err != nil {
+						run.Inconclusive("paired history: transport error on the corrupt request: " + trunc(err.Error(), 60))
+						continue
+					}
+					if d := refcodec.DecodeResponse(p, p != "connect", status, hdr, body, trl, svc.RefAlgos()); d.Err == nil || d.Err.Code == 0 {
+						run.Violation(key+"/accepted", "a request whose compression header is corrupt was not answered with a coded error", map[string]any{"status": status})
+					}
+				} else {
+					cl := cs.Do(context.Background(), svc.Unary, "corrupt", http.Header{"X-Verif-Corrupt": {"1"}}, []*gen.Msg{{Id: 5}})
+					if cl.Err == nil {
+						run.Violation(key+"/accepted", "a response whose compression header is corrupt was delivered as success", nil)
+					}
+				}
+				run.Count("isolation.corrupt_calls", 1)
+				// 2. three valid calls that overlap inside their decompressors
+				var wg sync.WaitGroup
+				for g := 0; g < 3; g++ {
+					wg.Add(1)
+					go func() {
+						defer wg.Done()
+						id := atomic.AddUint64(&idc, 1) + 5000
+						m := gen.New(id, 600, true)
+						reply := gen.New(id+1<<32, 600, true)
+						call := reg.New("pair", &svc.Program{Steps: []svc.Step{{Op: "recvall"}, {Op: "send", Msg: reply}}})
+						defer reg.Drop(call)
+						defer cs.Tap.Forget(call.ID)
+						var cl *svc.CLog
+						ok, _ := watchdog(60*time.Second, func() { cl = cs.Do(context.Background(), svc.Unary, call.ID, nil, []*gen.Msg{m}) })
+						run.Count("isolation.valid_calls", 1)
+						run.Eval(fmt.Sprintf("paired|%s|%s|round=%d", side, p, round%4))
+						if !ok {
+							run.Violation(key+"/hang", "valid compressed call hung after a corrupt one", nil)
+							return
+						}
+						if cl.Err != nil {
+							run.Violation(key+"/failed", "a valid compressed call failed after a call with a corrupt compression header on the same pool: "+errStr(cl.Err), nil)
+							return
+						}
+						if same, why := gen.SameSeq(cl.Msgs, []*gen.Msg{reply}); !same {
+							run.Violation(key+"/response-corrupted", "valid call's response arrived changed: "+why, nil)
+						}
+						if same, why := gen.SameSeq(call.Log.Received, []*gen.Msg{m}); !same {
+							run.Violation(key+"/request-corrupted", "valid call's request arrived changed: "+why, nil)
+						}
+					}()
+				}
+				wg.Wait()
+				if v := atomic.LoadInt64(&stats.Violations); v > before {
+					run.Violation(key+"/shared-decompressor", "after a call with a corrupt compression header, two overlapping valid calls were handed the same pooled decompressor", map[string]any{"notes": stats.Notes, "round": round})
+					break
+				}
+			}
+		}
+	}
+	run.Count("paired.rendezvous", atomic.LoadInt64(&stats.Paired))
+	serverPanicCheck(run, srv, "c08/paired")
 }
